@@ -439,6 +439,102 @@ func c07One(c *Ctx, m *Model, cs c07Case) {
 	pollDone := make(chan error, 1)
 	go func() { pollDone <- bl.RunPollLoop() }()
 
+	// the history
+	wctx := context.Background()
+	doOp := func(op c07Op) {
+		var err error
+		tbl := op.Table
+		do := func(a func(*c10Row) error, b func(*c07RowB) error, r []int64) error {
+			if tbl == 0 {
+				return a(c07Row(r))
+			}
+			return b(c07RowBOf(r))
+		}
+		w.mu.Lock()
+		w.nextBad = op.Bad
+		w.mu.Unlock()
+		switch op.Op {
+		case "insert":
+			err = do(func(r *c10Row) error { _, e := db.InsertRow(wctx, r); return e }, func(r *c07RowB) error { _, e := db.InsertRow(wctx, r); return e }, op.Rows[0])
+		case "upsert":
+			err = do(func(r *c10Row) error { _, e := db.UpsertRow(wctx, r); return e }, func(r *c07RowB) error { _, e := db.UpsertRow(wctx, r); return e }, op.Rows[0])
+		case "update":
+			err = do(func(r *c10Row) error { return db.UpdateRow(wctx, r) }, func(r *c07RowB) error { return db.UpdateRow(wctx, r) }, op.Rows[0])
+		case "delete":
+			err = do(func(r *c10Row) error { return db.DeleteRow(wctx, r) }, func(r *c07RowB) error { return db.DeleteRow(wctx, r) }, op.Rows[0])
+		case "insertRows", "upsertRows":
+			if tbl == 0 {
+				var rows []*c10Row
+				for _, r := range op.Rows {
+					rows = append(rows, c07Row(r))
+				}
+				if op.Op == "insertRows" {
+					err = db.InsertRows(wctx, rows, 10)
+				} else {
+					err = db.UpsertRows(wctx, rows, 10)
+				}
+			} else {
+				var rows []*c07RowB
+				for _, r := range op.Rows {
+					rows = append(rows, c07RowBOf(r))
+				}
+				if op.Op == "insertRows" {
+					err = db.InsertRows(wctx, rows, 10)
+				} else {
+					err = db.UpsertRows(wctx, rows, 10)
+				}
+			}
+		case "updateWhere": // one statement changing several rows: one event with several before/after pairs
+			_, err = conn.ExecContext(wctx, "UPDATE "+c07Tables[tbl]+" SET b = ? WHERE b = ?", op.Rows[0][2], op.Rows[0][3])
+		case "deleteWhere":
+			_, err = conn.ExecContext(wctx, "DELETE FROM "+c07Tables[tbl]+" WHERE b = ?", op.Rows[0][2])
+		case "deliver":
+			w.push(ch, op.N)
+		case "noise":
+			w.noise(op.N)
+		case "pause":
+			time.Sleep(time.Duration(op.N) * time.Microsecond)
+		}
+		_ = err // a duplicate key or a missing row: the fake database refused, nothing was written
+	}
+	// writes squeezed in right after a live query's read: committed, handed to the poll loop and processed by the
+	// tracker before the read returns to the live query
+	var midMu sync.Mutex
+	mid := append([]c07Op{}, cs.Mid...)
+	fdb.afterSelect = func(q string) {
+		if strings.Contains(q, "information_schema") {
+			return
+		}
+		w.mu.Lock()
+		_, live := w.cur[goid()]
+		if w.foreign[goid()] {
+			live = false
+		}
+		w.mu.Unlock()
+		if !live {
+			return
+		}
+		midMu.Lock()
+		if len(mid) == 0 {
+			midMu.Unlock()
+			return
+		}
+		op := mid[0]
+		mid = mid[1:]
+		midMu.Unlock()
+		doOp(op)
+		w.push(ch, 1<<30)
+		deadline := time.Now().Add(2 * time.Second)
+		for time.Now().Before(deadline) {
+			w.mu.Lock()
+			done := w.delivers >= w.expected && w.polled == w.pushed
+			w.mu.Unlock()
+			if done {
+				break
+			}
+			time.Sleep(200 * time.Microsecond)
+		}
+	}
 	// the live queries, grouped into rerunners
 	groups := map[int][]int{}
 	var order []int
@@ -541,105 +637,10 @@ func c07One(c *Ctx, m *Model, cs c07Case) {
 		}, 0, false))
 	}
 
-	// the history
-	wctx := context.Background()
-	doOp := func(op c07Op) {
-		var err error
-		tbl := op.Table
-		do := func(a func(*c10Row) error, b func(*c07RowB) error, r []int64) error {
-			if tbl == 0 {
-				return a(c07Row(r))
-			}
-			return b(c07RowBOf(r))
-		}
-		w.mu.Lock()
-		w.nextBad = op.Bad
-		w.mu.Unlock()
-		switch op.Op {
-		case "insert":
-			err = do(func(r *c10Row) error { _, e := db.InsertRow(wctx, r); return e }, func(r *c07RowB) error { _, e := db.InsertRow(wctx, r); return e }, op.Rows[0])
-		case "upsert":
-			err = do(func(r *c10Row) error { _, e := db.UpsertRow(wctx, r); return e }, func(r *c07RowB) error { _, e := db.UpsertRow(wctx, r); return e }, op.Rows[0])
-		case "update":
-			err = do(func(r *c10Row) error { return db.UpdateRow(wctx, r) }, func(r *c07RowB) error { return db.UpdateRow(wctx, r) }, op.Rows[0])
-		case "delete":
-			err = do(func(r *c10Row) error { return db.DeleteRow(wctx, r) }, func(r *c07RowB) error { return db.DeleteRow(wctx, r) }, op.Rows[0])
-		case "insertRows", "upsertRows":
-			if tbl == 0 {
-				var rows []*c10Row
-				for _, r := range op.Rows {
-					rows = append(rows, c07Row(r))
-				}
-				if op.Op == "insertRows" {
-					err = db.InsertRows(wctx, rows, 10)
-				} else {
-					err = db.UpsertRows(wctx, rows, 10)
-				}
-			} else {
-				var rows []*c07RowB
-				for _, r := range op.Rows {
-					rows = append(rows, c07RowBOf(r))
-				}
-				if op.Op == "insertRows" {
-					err = db.InsertRows(wctx, rows, 10)
-				} else {
-					err = db.UpsertRows(wctx, rows, 10)
-				}
-			}
-		case "updateWhere": // one statement changing several rows: one event with several before/after pairs
-			_, err = conn.ExecContext(wctx, "UPDATE "+c07Tables[tbl]+" SET b = ? WHERE b = ?", op.Rows[0][2], op.Rows[0][3])
-		case "deleteWhere":
-			_, err = conn.ExecContext(wctx, "DELETE FROM "+c07Tables[tbl]+" WHERE b = ?", op.Rows[0][2])
-		case "deliver":
-			w.push(ch, op.N)
-		case "noise":
-			w.noise(op.N)
-		case "pause":
-			time.Sleep(time.Duration(op.N) * time.Microsecond)
-		}
-		_ = err // a duplicate key or a missing row: the fake database refused, nothing was written
-	}
-	// writes squeezed in right after a live query's read: committed, handed to the poll loop and processed by the
-	// tracker before the read returns to the live query
-	var midMu sync.Mutex
-	mid := append([]c07Op{}, cs.Mid...)
-	fdb.afterSelect = func(q string) {
-		if strings.Contains(q, "information_schema") {
-			return
-		}
-		w.mu.Lock()
-		_, live := w.cur[goid()]
-		if w.foreign[goid()] {
-			live = false
-		}
-		w.mu.Unlock()
-		if !live {
-			return
-		}
-		midMu.Lock()
-		if len(mid) == 0 {
-			midMu.Unlock()
-			return
-		}
-		op := mid[0]
-		mid = mid[1:]
-		midMu.Unlock()
-		doOp(op)
-		w.push(ch, 1<<30)
-		deadline := time.Now().Add(2 * time.Second)
-		for time.Now().Before(deadline) {
-			w.mu.Lock()
-			done := w.delivers >= w.expected && w.polled == w.pushed
-			w.mu.Unlock()
-			if done {
-				break
-			}
-			time.Sleep(200 * time.Microsecond)
-		}
-	}
+	mainRnd := NewRand(cs.Seed ^ 0x9e3779b97f4a7c15)
 	for _, op := range cs.Ops {
 		doOp(op)
-		if w.rnd.Chance(0.5) {
+		if mainRnd.Chance(0.5) {
 			runtime.Gosched()
 		}
 	}
